@@ -255,7 +255,7 @@ func errorHonoured(cl *ssa.Call) (bool, string) {
 }
 
 func checkC05(c *Ctx) {
-	c.explanation = "Static decision, for the built-in BLS and PS key generation (sibling-checked), of: (O1) every function that waits on the condition variable until a count is reached or the context expires returns an error that distinguishes expiry, and every caller up to KeyGen honours it (returns it or branches on it before anything else); (O2) the reveal broadcast is sent only after the commitment wait succeeded and after the own commitment was sent; (N1) the wait thresholds in linear normal form (shares n−1, commitments n−1, reveals n); (G1) KeyGen's success is dominated by validateCommitments()==nil and inside it sha256(revealed[p]) is compared with commitments[p] for the same p, a mismatch returns an error; (G2) success is dominated by the size test of the map filled once per enumerated t-subset; (T1) commit and reveal are broadcast-class at the sender and at the receiver; (G3) in OnMsg every store of a contribution is dominated by the not-present arm of a lookup with the same key; (P1, PS) decoded share/key vectors are length-validated before they are stored. That a consistent outcome implies jointly usable shares is algebra and is not decided."
+	c.explanation = "Static decision, for the built-in BLS and PS key generation (sibling-checked), of: (O1) every function that waits on the condition variable until a count is reached or the context expires returns an error that distinguishes expiry, and every caller up to KeyGen honours it (returns it or branches on it before anything else); (O2) the reveal broadcast is sent only after the commitment wait succeeded and after the own commitment was sent; (N1) the wait thresholds in linear normal form (shares n−1, commitments n−1, reveals n); (G1) KeyGen's success is dominated by validateCommitments()==nil and inside it sha256(revealed[p]) is compared with commitments[p] for the same p, a mismatch returns an error, and on both sides the commitment is a proper SHA-256 digest of the key (sha256.Sum256(x), or New/Write(x)/Sum(nil) — not Sum(x) of an empty hash); (G2) success is dominated by the size test of the map filled once per enumerated t-subset; (T1) commit and reveal are broadcast-class at the sender and at the receiver; (G3) in OnMsg every store of a contribution is dominated by the not-present arm of a lookup with the same key; (P1, PS) decoded share/key vectors are length-validated before they are stored. That a consistent outcome implies jointly usable shares is algebra and is not decided."
 	c.notDecided = "algebraic usability of the resulting shares; enumeration of victim sets and strategies"
 	c.Assume("sync.Cond semantics; reliable broadcast delivers identical commit/reveal values to all honest parties (C02)")
 	const O1, O2, N1, G1, G2, T1, G3, P1 = "C05.O1", "C05.O2", "C05.N1", "C05.G1", "C05.G2", "C05.T1", "C05.G3", "C05.P1"
@@ -353,20 +353,32 @@ func checkC05(c *Ctx) {
 		// ---------------------------------------------------------------- G3
 		from := strip(d.onMsg.Params[2])
 		for _, f := range []*types.Var{d.fShares, d.fCommitments, d.fPKs} {
-			ups := mapUpdatesOfField(deepFuncs(d.onMsg), f)
+			ups := fieldMapStores(deepFuncs(d.onMsg), f)
 			if len(ups) == 0 {
 				c.Bad(G3, FuncName(d.onMsg), "store into "+f.Name(), "-", "OnMsg never records this contribution")
 			}
-			for _, mu := range ups {
-				ok := strip(mu.Key) == from && boolFact(FactsAt(mu), false, func(v ssa.Value) bool {
+			for _, st := range ups {
+				mu := st.mu
+				// (the test may sit next to the store inside a helper that is given the map, or before the call)
+				facts := FactsAt(mu)
+				if st.call != nil {
+					facts = append(facts, FactsAt(st.call)...)
+				}
+				ok := st.resolve(mu.Key) == from && boolFact(facts, false, func(v ssa.Value) bool {
 					tup, isOK := commaOK(v)
 					if !isOK {
 						return false
 					}
 					lk, isL := tup.(*ssa.Lookup)
-					return isL && isLoadOfField(lk.X, f) && strip(lk.Index) == from
+					if !isL {
+						return false
+					}
+					if lk.Parent() == mu.Parent() {
+						return st.sameMap(lk.X, f) && st.resolve(lk.Index) == from
+					}
+					return isLoadOfField(lk.X, f) && strip(lk.Index) == from
 				})
-				c.Check(ok, G3, FuncName(d.onMsg), "store into "+f.Name(), m.Pos(mu.Pos()), "keyed by from, dominated by the not-present arm of "+f.Name()+"[from]",
+				c.Check(ok, G3, FuncName(d.onMsg), "store into "+f.Name(), m.Pos(st.at().Pos()), "keyed by from, dominated by the not-present arm of "+f.Name()+"[from]",
 					"a later message of the same peer overwrites its earlier contribution (a participant can show different values over time)")
 			}
 		}
